@@ -231,13 +231,24 @@ class SetEncoder(encoder.SequenceEncoder):
             if namedType:
                 options.update(ifNotEmpty=namedType.isOptional)
 
-            chunk = encodeFun(comp, compType, **options)
-
             # wrap open type blob if needed
             if namedType and namedType.openType:
                 wrapType = namedType.asn1Object
-                if wrapType.tagSet and not wrapType.isSameTypeWith(comp):
-                    chunk = encodeFun(chunk, wrapType, **options)
+
+                if wrapType.typeId in (
+                        univ.SetOf.typeId, univ.SequenceOf.typeId):
+                    chunk = encodeFun(
+                        comp, compType,
+                        **dict(options, wrapType=wrapType.componentType))
+
+                else:
+                    chunk = encodeFun(comp, compType, **options)
+
+                    if wrapType.tagSet and not wrapType.isSameTypeWith(comp):
+                        chunk = encodeFun(chunk, wrapType, **options)
+
+            else:
+                chunk = encodeFun(comp, compType, **options)
 
             substrate += chunk
 
